@@ -448,16 +448,10 @@ fn run_bls<C: Bls>(u: &mut Unstructured, ctx: &mut Ctx) -> CheckResult {
             ctx.class("invalid");
             ctx.nontrivial(&(C::NAME, &bytes));
             ctx.sample(|| desc.clone());
-            if let Ok(pt) = real {
-                // Known finding (see NOTES.md, F-C20-1): the zcash-format reader of ark-bls12-381 0.4
-                // returns the identity as soon as the infinity flag is set, without looking at the
-                // remaining bits. Counted, excluded from failing the run under exactly this
-                // signature; every other acceptance of an invalid string is a violation.
+            if real.is_ok() {
+                // (F-C20-1, fixed in /repo by 512f728a1: infinity flag with stray bits used to be
+                // accepted as the identity; it is an ordinary violation like every other kind.)
                 let sig = format!("accepts-invalid:{}:{}", C::NAME, why);
-                if (why == "infinity-nonzero-body" || why == "infinity-sort-flag") && pt.is_zero_point() && !ctx.strict {
-                    ctx.class(&format!("known-finding:{}", sig));
-                    return Ok(());
-                }
                 return Err(Violation::new(
                     "accepts-invalid-encoding",
                     format!("{}: checked decoder accepted an invalid encoding ({why}): {}", C::NAME, gen::hex(&bytes)),
